@@ -635,6 +635,7 @@ pub fn run_c16(tier: Tier) -> i32 {
         Flood(Codec),
         ClientFlood(Codec),
         ServerAge(Codec),
+        Timed(Codec),
         ClientAge(Codec),
         StubVariant,
     }
@@ -645,6 +646,7 @@ pub fn run_c16(tier: Tier) -> i32 {
         jobs.push(Job::Flood(codec));
         jobs.push(Job::ClientFlood(codec));
         jobs.push(Job::ServerAge(codec));
+        jobs.push(Job::Timed(codec));
         jobs.push(Job::ClientAge(codec));
         for i in 0..n_frames {
             jobs.push(Job::Mutate(codec, i));
@@ -661,7 +663,7 @@ pub fn run_c16(tier: Tier) -> i32 {
     // Jobs that need a tracing subscriber run afterwards, serially, under one subscriber each
     // (see chain_props::run_c07 for why per-thread subscribers in parallel are unreliable).
     let (jobs, regime_jobs): (Vec<Job>, Vec<Job>) = jobs.into_iter().partition(|j| match j {
-        Job::Mutate(..) | Job::Flood(_) | Job::ClientFlood(_) | Job::ServerAge(_) | Job::ClientAge(_) | Job::StubVariant => true,
+        Job::Mutate(..) | Job::Flood(_) | Job::ClientFlood(_) | Job::ServerAge(_) | Job::Timed(_) | Job::ClientAge(_) | Job::StubVariant => true,
         Job::Boundary(_, r) | Job::Client(_, r, _) => *r == Regime::NoSubscriber,
     });
     let next = AtomicUsize::new(0);
@@ -695,6 +697,7 @@ pub fn run_c16(tier: Tier) -> i32 {
                             Job::Flood(codec) => crate::c16_hist::flood_cases(&mut st, codec, flood_n),
                             Job::ClientFlood(codec) => crate::c16_hist::client_flood_cases(&mut st, codec, flood_n),
                             Job::ServerAge(codec) => crate::c16_hist::server_age_cases(&mut st, codec).await,
+                            Job::Timed(codec) => crate::c16_hist::timed_history_cases(&mut st, codec, if tier == Tier::Thorough { 6 } else { 5 }).await,
                             Job::ClientAge(codec) => crate::c16_hist::client_age_cases(&mut st, codec).await,
                             Job::StubVariant => crate::c16_hist::stub_variant_cases(&mut st),
                         }
@@ -744,7 +747,7 @@ pub fn run_c16(tier: Tier) -> i32 {
         t.distinct.len() as u64,
         &t.failures,
         json!({"mutants_still_well_formed": t.wellformed, "mutants_malformed": t.malformed, "jobs": njobs, "flood_run_length_bound": flood_n, "connection_ages": crate::c16_hist::ages().iter().map(|a| a.0).collect::<Vec<_>>()}),
-        "server: for each codec and each of 6 valid client frames, every single-byte substitution (all 256 values for the first frame and in the thorough tier, a boundary value set otherwise), every truncation, boundary length prefixes and every body of length <=2, fed through the real framed serde transport into a real BaseChannel.execute(echo) followed by a well-formed probe request, which must be answered whenever the odd input still decodes to one message; well-typed boundary messages (ids 0/u64::MAX, deadlines 0 .. Duration::MAX, cancels for unused ids, floods of 100 duplicates) under three subscriber regimes; floods readable within one poll: with a request held in flight, every pair of run lengths (a, b) up to N of duplicates of it and cancels for an unused id, in both orders; connections of every age in a grid (0 .. 30 years, fresh / having served a request / holding a request in flight) receiving every boundary deadline next; a macro-generated client stub answered with a well-typed response of another method (none, tracing_subscriber::fmt, tracing-opentelemetry); client: every deadline a local caller can put in the context, unsolicited/duplicate responses, and every single-byte substitution/truncation of valid response frames into a real dispatch with one call outstanding. Oracle: no panic anywhere (catch_unwind around every subject run), nothing stuck, probe served",
+        "server: for each codec and each of 6 valid client frames, every single-byte substitution (all 256 values for the first frame and in the thorough tier, a boundary value set otherwise), every truncation, boundary length prefixes and every body of length <=2, fed through the real framed serde transport into a real BaseChannel.execute(echo) followed by a well-formed probe request, which must be answered whenever the odd input still decodes to one message; well-typed boundary messages (ids 0/u64::MAX, deadlines 0 .. Duration::MAX, cancels for unused ids, floods of 100 duplicates) under three subscriber regimes; floods readable within one poll: with a request held in flight, every pair of run lengths (a, b) up to N of duplicates of it and cancels for an unused id, in both orders; connections of every age in a grid (0 .. 30 years, fresh / having served a request / holding a request in flight) receiving every boundary deadline next; every sequence of at most 5 (thorough: 6) peer actions on one id out of {request that stays in flight with a 1/10/30 s deadline, request answered at once, cancellation, 2 s or 40 s passing}, then 40 s and the probe; a macro-generated client stub answered with a well-typed response of another method (none, tracing_subscriber::fmt, tracing-opentelemetry); client: every deadline a local caller can put in the context, unsolicited/duplicate responses, and every single-byte substitution/truncation of valid response frames into a real dispatch with one call outstanding. Oracle: no panic anywhere (catch_unwind around every subject run), nothing stuck, probe served",
         t.samples.iter().map(|c| json!({"case": c})).collect(),
     )
 }
